@@ -62,6 +62,10 @@ const (
 	kpCloseErrno
 	kpRecvHard
 	kpSeqWrap
+	kpUnreadVerdictLeft
+	kpDataBeforeAck
+	kpSendSpareCap
+	kpSendSharedPayload
 	nKProbes
 )
 
@@ -72,7 +76,8 @@ var kProbeNames = []string{"unsolicited_record_skipped_inside_call", "eagain_x9_
 	"waitacks_with_nothing_pending", "waitacks_called_again_after_error", "repeated_close_was_noop", "second_close_blocked_in_once",
 	"close_cleared_pid", "getrules_buffer_overwritten_later", "sends_overlapped_in_time", "receive_short_datagram", "receive_foreign_port_id",
 	"receive_non_netlink_address", "short_after_long_datagram", "send_payload_8970", "send_with_caller_pid", "porcupine_histories_checked",
-	"sendto_failed", "kernel_immutable", "receive_foreign_port_id_with_group_mask", "receive_foreign_port_id_2^31_or_more", "getstatus_result_checked_again_at_end", "receive_on_two_independent_clients_in_tasks", "forged_reply_queued_ahead_of_the_kernels", "ack_datagram_truncated", "setters_on_two_clients_in_two_tasks", "socket_close_reported_an_error", "receive_failed_with_enobufs_inside_call", "sequence_counter_started_next_to_wrap"}
+	"sendto_failed", "kernel_immutable", "receive_foreign_port_id_with_group_mask", "receive_foreign_port_id_2^31_or_more", "getstatus_result_checked_again_at_end", "receive_on_two_independent_clients_in_tasks", "forged_reply_queued_ahead_of_the_kernels", "ack_datagram_truncated", "setters_on_two_clients_in_two_tasks", "socket_close_reported_an_error", "receive_failed_with_enobufs_inside_call", "sequence_counter_started_next_to_wrap",
+	"verdict_left_unread_by_a_failed_call", "status_reply_ahead_of_its_ack", "send_payload_with_spare_capacity", "send_same_payload_slice_again"}
 
 var kFaultNames = []string{"injected_errno", "unsolicited_records", "stale_reply", "delayed_reply", "truncated_or_padded_reply", "spoofed_datagram",
 	"recv_eintr", "recv_eagain_injected", "recv_eagain_natural", "sendto_errno", "concurrent_close_tasks", "concurrent_send_tasks"}
@@ -110,6 +115,8 @@ type kctx struct {
 	res         *core.Result
 	k           *kern.Kernel
 	port        *kernelPort
+	callHard    bool // a receive failed hard (ENOBUFS) inside the call being judged
+	lastSend    *sendBuf
 	client      *libaudit.AuditClient
 	nl          libaudit.NetlinkSendReceiver
 	realNL      *libaudit.NetlinkClient
@@ -288,7 +295,7 @@ func (c *kctx) execOp(i int, op KOp) {
 	unsol0 := countConsumed(k, kern.DUnsolicited)
 	leftovers := 0
 	for _, d := range k.Queue {
-		if !d.Consumed && d.Kind != kern.DUnsolicited {
+		if !d.Consumed && d.Kind != kern.DUnsolicited && !d.Unexcused {
 			leftovers++
 		}
 	}
@@ -400,6 +407,10 @@ func (c *kctx) execOp(i int, op KOp) {
 
 	switch c.p.Scenario {
 	case 16:
+		c.callHard = c.port.hardFired > hard0
+		if c.callHard {
+			c.res.Probes[kpRecvHard]++
+		}
 		c.judgeWire(i, op, reqs, st, err)
 		// keep later operations independent: consume whatever is left
 		for _, d := range k.Queue {
@@ -444,6 +455,12 @@ func (c *kctx) execOp(i int, op KOp) {
 			// the verdict was truncated away: the call may fail, it must not claim success for a refused request
 			relaxed = true
 			c.res.Probes[kpAckTruncated]++
+		}
+		if r.DataFirst {
+			// the reply overtook the ACK (outside the property's quantifier): the
+			// call may fail, it must not hand out anything but the kernel's data
+			relaxed = true
+			c.res.Probes[kpDataBeforeAck]++
 		}
 		if faultOf(c.p, r.Idx).Spoof != 0 && c.realNL != nil {
 			// a forged reply was queued ahead of the kernel's: the call may be
@@ -551,8 +568,33 @@ func (c *kctx) execOp(i int, op KOp) {
 		}
 	}
 	if relaxed || (err != nil && c.k.Pending() > 0) {
-		// model the application draining its socket after a failed exchange
+		// model the application draining its socket after a failed exchange.
+		// What it may find there is the rest of the exchange that failed: the
+		// replies to the first request of this call that was refused, faulted
+		// or not read to its end. Replies to requests the call sent after
+		// that one are verdicts nobody read; they stay queued (not excused),
+		// and the next command is judged with them in its way.
+		failing := -1
+		if !relaxed {
+			for _, r := range reqs {
+				unread := false
+				for _, d := range r.Replies {
+					if !d.Consumed {
+						unread = true
+					}
+				}
+				if r.Verdict != 0 || unread || faultOf(c.p, r.Idx) != (kern.ReqFault{}) {
+					failing = r.Idx
+					break
+				}
+			}
+		}
 		for _, d := range k.Queue {
+			if failing >= 0 && d.Req > failing && !d.Consumed {
+				d.Unexcused = true
+				c.res.Probes[kpUnreadVerdictLeft]++
+				continue
+			}
 			d.Consumed = true
 		}
 	}
@@ -690,6 +732,12 @@ func (c *kctx) judgeWire(i int, op KOp, reqs []*kern.Request, st *libaudit.Audit
 		return
 	}
 	n := len(r.StatusSent)
+	if r.DataFirst {
+		c.res.Probes[kpDataBeforeAck]++
+	}
+	if (err != nil || st == nil) && (r.DataFirst || c.callHard) {
+		return // the reply overtook its ACK, or a receive failed hard: the call may give up
+	}
 	if n < 32 {
 		c.res.Probes[kpShortStatusReply]++
 		if err == nil {
@@ -1015,18 +1063,32 @@ func (c *kctx) concurrentPhase(gb *gateBox) {
 	type sendRec struct {
 		op        KOp
 		payload   []byte
+		sb        *sendBuf
 		seq       uint32
 		err       bool
 		call, ret int
 	}
 	sends := make([][]sendRec, len(c.p.Tasks))
+	sharedBufs := map[int]*sendBuf{}
 	for ti := range c.p.Tasks {
 		ti := ti
 		ops := c.p.Tasks[ti]
 		sends[ti] = make([]sendRec, len(ops))
 		for oi, op := range ops {
 			if op.K == kSendRaw {
-				sends[ti][oi] = sendRec{op: op, payload: sendPayload(ti*100+oi+1000, int(op.A))}
+				sb := mkSendBuf(ti*100+oi+1000, int(op.A), op.E)
+				if op.E&16 != 0 {
+					// the same read-only slice handed to Send by several callers (possibly at the same time)
+					if prev := sharedBufs[int(op.A)]; prev != nil {
+						sb = prev
+						c.res.Probes[kpSendSharedPayload]++
+					}
+					sharedBufs[int(op.A)] = sb
+				}
+				if cap(sb.live) > len(sb.live) {
+					c.res.Probes[kpSendSpareCap]++
+				}
+				sends[ti][oi] = sendRec{op: op, payload: sb.pristine, sb: sb}
 			}
 		}
 		sc.Go("task"+strconv.Itoa(ti), func(t *core.Task) {
@@ -1112,7 +1174,7 @@ func (c *kctx) concurrentPhase(gb *gateBox) {
 					h.Rec(evKCall, opid, int64(op.K), 0, 0, "")
 					seq, err := c.realNL.Send(syscall.NetlinkMessage{
 						Header: syscall.NlMsghdr{Type: uint16(op.C), Flags: uint16(op.B), Pid: uint32(op.D)},
-						Data:   sends[ti][oi].payload,
+						Data:   sends[ti][oi].sb.live,
 					})
 					e := int64(0)
 					if err != nil {
@@ -1290,9 +1352,53 @@ func (c *kctx) concurrentPhase(gb *gateBox) {
 					continue
 				}
 				c.judgeSendWire(sr.op, sr.payload, sr.seq, sr.err, c.k.Ledger[L0:])
+				if !sr.sb.intact() {
+					c.viol("send-modified-caller-payload", "Send", "Send(payload %d bytes, capacity %d) changed the caller's payload bytes", len(sr.sb.live), cap(sr.sb.live))
+				}
 			}
 		}
 	}
+}
+
+// sendBuf is a payload slice as a caller may hold it: possibly cut out of a
+// larger buffer, possibly with spare capacity behind it, possibly sent more
+// than once. pristine is what the caller put there.
+type sendBuf struct {
+	live     []byte
+	pristine []byte
+	big      []byte
+	pre      int
+}
+
+var spareClasses = []int{0, 1, 15, 16, 17, 64, 4096, 9000}
+
+func mkSendBuf(tag, n int, shape uint32) *sendBuf {
+	content := sendPayload(tag, n)
+	spare := spareClasses[shape&7]
+	pre := 0
+	if shape&8 != 0 {
+		pre = 24
+	}
+	big := make([]byte, pre+n+spare)
+	for i := range big {
+		big[i] = 0x5A
+	}
+	copy(big[pre:], content)
+	return &sendBuf{live: big[pre : pre+n : pre+n+spare], pristine: content, big: big, pre: pre}
+}
+
+// intact reports whether the caller's bytes (the slice itself and what lies
+// in front of it in the caller's buffer) are as the caller left them.
+func (b *sendBuf) intact() bool {
+	if !bytes.Equal(b.live, b.pristine) {
+		return false
+	}
+	for _, x := range b.big[:b.pre] {
+		if x != 0x5A {
+			return false
+		}
+	}
+	return true
 }
 
 func sendPayload(tag int, n int) []byte {
@@ -1311,7 +1417,16 @@ func (c *kctx) execSendRaw(i int, op KOp) {
 	if c.realNL == nil {
 		return
 	}
-	payload := sendPayload(i+1, int(op.A))
+	sb := mkSendBuf(i+1, int(op.A), op.E)
+	if op.E&16 != 0 && c.lastSend != nil && len(c.lastSend.live) == int(op.A) {
+		sb = c.lastSend // the caller sends the slice it sent before once more
+		c.res.Probes[kpSendSharedPayload]++
+	}
+	c.lastSend = sb
+	if cap(sb.live) > len(sb.live) {
+		c.res.Probes[kpSendSpareCap]++
+	}
+	payload := sb.live
 	L0 := len(c.k.Ledger)
 	s0 := c.port.sends
 	var seq uint32
@@ -1335,6 +1450,10 @@ func (c *kctx) execSendRaw(i int, op KOp) {
 		c.viol("send-seq-not-increasing", "Send", "Send returned sequence %d after %d", seq, c.sentSeqs[len(c.sentSeqs)-1])
 	}
 	c.sentSeqs = append(c.sentSeqs, seq)
+	if !sb.intact() {
+		c.viol("send-modified-caller-payload", "Send", "Send(payload %d bytes, capacity %d) changed the caller's payload bytes", len(sb.live), cap(sb.live))
+	}
+	payload = sb.pristine
 	failed := s0 < len(c.p.SendErr) && c.p.SendErr[s0] != 0
 	if failed {
 		c.res.Probes[kpSendErrno]++
